@@ -125,6 +125,27 @@ CReadPred(c, comp, p, d) ==
        [outs |-> {"other", "err", "panic"}, q |-> qq, errs |-> {}, why |-> "F04b"]
   ELSE [outs |-> {"exact"}, q |-> qq, errs |-> {}, why |-> "none"]
 
+(* ------------------------- E: the 5-byte archive location -------------- *)
+(* Where an object lies is what the index stores per key; it is written to   *)
+(* the .idx files in 5 bytes: archive id (10 bits) and offset (30 bits),     *)
+(* big-endian: byte 1 = id >> 2, bytes 2..5 = ((id & 3) << 30) | offset.     *)
+(* A location that does not come back identical makes a read return the     *)
+(* bytes of some other place (C04).  Executable definition, evaluated by the *)
+(* monitor on recorded to_bytes / to_packed / save+load results (binding E). *)
+(* TLC integers are 32-bit signed: the packed word itself is never formed.   *)
+LocOk(id, off) == id \in 0..1023 /\ off \in 0..(1073741824 - 1)
+PackLoc(id, off) ==
+  << id \div 4, (id % 4) * 64 + off \div 16777216, (off \div 65536) % 256, (off \div 256) % 256, off % 256 >>
+UnpackLoc(b) ==
+  [id  |-> b[1] * 4 + b[2] \div 64,
+   off |-> (b[2] % 64) * 16777216 + b[3] * 65536 + b[4] * 256 + b[5]]
+\* the packing is lossless on every representable location (checked by TLC on the boundary grid)
+LocGridIds  == {0, 1, 2, 3, 4, 255, 256, 1022, 1023}
+LocGridOffs == {0, 1, 255, 256, 65535, 65536, 16777215, 16777216, 67108863, 67108864, 67108865,
+                134217728, 268435456, 536870912, 536883257, 1073741823}
+PackLossless == \A i \in LocGridIds, o \in LocGridOffs :
+                  LocOk(i, o) /\ UnpackLoc(PackLoc(i, o)) = [id |-> i, off |-> o]
+
 (* ------------------------- properties of the design -------------------- *)
 \* every live object reads back exactly (C refines A); desc: name -> descriptor
 Durable(a, c, comp, desc) ==
